@@ -7,6 +7,12 @@ EXTENDS MC_Analyses, DeriveRules
 InitD == \E D \in [Node -> UNION {Descs(n) : n \in Node}], out \in Node \cup {NONE} :
     /\ \A n \in Node : D[n] \in Descs(n)
     /\ \A n \in Node : \A t \in {D[n].r1, D[n].r2} \ {NONE} : D[t].sh # "Var"
+    (* well-formed: what is instantiated is a class template (or an alias / instantiation leading to one) *)
+    /\ \A n \in Node : D[n].sh = "Inst" => D[D[n].r1].sh \in {"Struct", "Union", "StructBF", "Alias", "Inst"}
+    (* a template argument that refers BACK can only be a named class (struct A { T<A> t; }): an array, pointer or *)
+    (* instantiation type cannot contain itself in its own spelling                                              *)
+    /\ \A n \in Node : (D[n].sh = "Inst" /\ D[n].r2 # NONE /\ Idx(D[n].r2) <= Idx(n))
+                         => D[D[n].r2].sh \in {"Struct", "Union", "StructBF"}
     /\ LET g == Build(D, Node \ {out}) IN
        /\ G = g /\ hv = HVLfp(g) /\ hd = HDLfp(g)
     /\ val = [n \in Node |-> "Yes"] /\ wl = <<>> /\ steps = 0
